@@ -15,7 +15,7 @@
 //!
 //! 2. SQL histories on a real `Database` in a scratch directory:
 //!      sql <pagesize> <cache> | op ; op ; …
-//!        ct <t> | dt <t> | ci <i> <t> <col> | di <i>
+//!        ct <t> | dt <t> | dtc <t> (DROP TABLE … CASCADE) | ci <i> <t> <col> | di <i> (DROP INDEX: does not parse today)
 //!        ins <t> <id> <len> | upd <t> <id> <len> | del <t> <id> | delr <t> <lo> <hi>
 //!        sK:begin | sK:<dml or ddl op> | sK:commit | sK:rollback
 //!        vac | flush | reopen
@@ -74,6 +74,71 @@ impl Drop for Scratch {
     fn drop(&mut self) {
         let _ = std::fs::remove_dir_all(&self.0);
     }
+}
+
+/// The real code prints debugging lines to stdout (`println!` in runtime/ddl.rs); stdout carries the line protocol, so fd 1
+/// points at /dev/null while a case runs and is restored before the answer is written.
+struct QuietStdout(i32);
+impl QuietStdout {
+    fn new() -> QuietStdout {
+        use std::io::Write;
+        let _ = std::io::stdout().flush();
+        unsafe {
+            let saved = libc::dup(1);
+            let null = libc::open(c"/dev/null".as_ptr(), libc::O_WRONLY);
+            if saved >= 0 && null >= 0 {
+                libc::dup2(null, 1);
+            }
+            if null >= 0 {
+                libc::close(null);
+            }
+            QuietStdout(saved)
+        }
+    }
+}
+impl Drop for QuietStdout {
+    fn drop(&mut self) {
+        use std::io::Write;
+        let _ = std::io::stdout().flush();
+        if self.0 >= 0 {
+            unsafe {
+                libc::dup2(self.0, 1);
+                libc::close(self.0);
+            }
+        }
+    }
+}
+
+/// Panics of the database's worker threads do not unwind into `exec`; a chained panic hook records where the first one
+/// happened (file:line below src/), so that the step can report `r=P<file:line>` and the history stops there (a dead
+/// worker pool would make every later statement wait forever).
+static WORKER_PANIC: std::sync::Mutex<Option<String>> = std::sync::Mutex::new(None);
+static HOOK: std::sync::Once = std::sync::Once::new();
+
+fn install_worker_hook() {
+    HOOK.call_once(|| {
+        let prev = std::panic::take_hook();
+        std::panic::set_hook(Box::new(move |info| {
+            let loc = info
+                .location()
+                .map(|l| {
+                    let f = l.file();
+                    let f = f.rsplit_once("/src/").map(|x| x.1).unwrap_or(f);
+                    format!("{}:{}", f, l.line())
+                })
+                .unwrap_or_else(|| "?".into());
+            if let Ok(mut g) = WORKER_PANIC.lock() {
+                if g.is_none() {
+                    *g = Some(loc);
+                }
+            }
+            prev(info);
+        }));
+    });
+}
+
+fn take_worker_panic() -> Option<String> {
+    WORKER_PANIC.lock().ok().and_then(|mut g| g.take())
 }
 
 fn guard<T>(f: impl FnOnce() -> Result<T, String>) -> Result<T, String> {
@@ -214,6 +279,7 @@ fn exec_seq(line: &str) -> String {
 enum Stmt {
     CreateTable(String),
     DropTable(String),
+    DropTableCascade(String),
     CreateIndex(String, String, String),
     DropIndex(String),
     Insert(String, u64, usize),
@@ -252,6 +318,7 @@ impl Stmt {
         Some(match w {
             ["ct", t] if ident_ok(t, 't') => Stmt::CreateTable(t.to_string()),
             ["dt", t] if ident_ok(t, 't') => Stmt::DropTable(t.to_string()),
+            ["dtc", t] if ident_ok(t, 't') => Stmt::DropTableCascade(t.to_string()),
             ["ci", i, t, c] if ident_ok(i, 'i') && ident_ok(t, 't') && (*c == "k" || *c == "v" || *c == "id") => {
                 Stmt::CreateIndex(i.to_string(), t.to_string(), c.to_string())
             }
@@ -267,6 +334,7 @@ impl Stmt {
         match self {
             Stmt::CreateTable(t) => format!("ct {}", t),
             Stmt::DropTable(t) => format!("dt {}", t),
+            Stmt::DropTableCascade(t) => format!("dtc {}", t),
             Stmt::CreateIndex(i, t, c) => format!("ci {} {} {}", i, t, c),
             Stmt::DropIndex(i) => format!("di {}", i),
             Stmt::Insert(t, id, len) => format!("ins {} {} {}", t, id, len),
@@ -279,6 +347,7 @@ impl Stmt {
         match self {
             Stmt::CreateTable(t) => format!("CREATE TABLE {} (id BIGINT, k BIGINT, v TEXT)", t),
             Stmt::DropTable(t) => format!("DROP TABLE {}", t),
+            Stmt::DropTableCascade(t) => format!("DROP TABLE {} CASCADE", t),
             Stmt::CreateIndex(i, t, c) => format!("CREATE UNIQUE INDEX {} ON {}({})", i, t, c),
             Stmt::DropIndex(i) => format!("DROP INDEX {}", i),
             Stmt::Insert(t, id, len) => format!("INSERT INTO {} VALUES ({}, {}, '{}')", t, id, id * 7 + 1, text_of(*len, *id)),
@@ -453,11 +522,22 @@ fn exec_sql(line: &str) -> String {
     let mut sessions: BTreeMap<u32, axmosdb::tcp::session::Session> = BTreeMap::new();
     let mut obs = Observer { prev: BTreeMap::new(), cache: None };
     let mut parts = Vec::new();
-    for op in &ops {
+    install_worker_hook();
+    let _ = take_worker_panic();
+    let debug = std::env::var("AXH_DEBUG").is_ok();
+    for (opi, op) in ops.iter().enumerate() {
+        if debug {
+            eprintln!("op{} {}", opi, show_qop(op));
+        }
         let r: Result<(), String> = guard(|| {
             let dbr = db.as_ref().ok_or_else(|| "closed".to_string())?;
             match op {
-                QOp::Auto(s) => dbr.execute(&s.sql()).map(|_| ()).map_err(|e| db_err_class(&e).to_string()),
+                QOp::Auto(s) => dbr.execute(&s.sql()).map(|_| ()).map_err(|e| {
+                    if debug {
+                        eprintln!("  error: {}", e);
+                    }
+                    db_err_class(&e).to_string()
+                }),
                 QOp::SBegin(k) => match dbr.session() {
                     Ok(s) => {
                         sessions.insert(*k, s);
@@ -466,7 +546,12 @@ fn exec_sql(line: &str) -> String {
                     Err(e) => Err(db_err_class(&e).to_string()),
                 },
                 QOp::SStmt(k, s) => match sessions.get_mut(k) {
-                    Some(sess) => sess.execute(&s.sql()).map(|_| ()).map_err(|_| "query".to_string()),
+                    Some(sess) => sess.execute(&s.sql()).map(|_| ()).map_err(|e| {
+                        if debug {
+                            eprintln!("  error: {}", e);
+                        }
+                        "query".to_string()
+                    }),
                     None => Err("nosession".into()),
                 },
                 QOp::SCommit(k) => match sessions.remove(k) {
@@ -495,16 +580,22 @@ fn exec_sql(line: &str) -> String {
                 Err(e) => Err(db_err_class(&e).to_string()),
             });
         }
-        let rs = match &r {
-            Ok(()) => "ok".to_string(),
-            Err(e) if e.starts_with("PANIC@") => format!("P{}", &e[6..]),
-            Err(e) => format!("E{}", e),
+        let wp = take_worker_panic();
+        let rs = match (&r, &wp) {
+            (Err(e), _) if e.starts_with("PANIC@") => format!("P{}", &e[6..]),
+            (_, Some(loc)) => format!("P{}", loc),
+            (Ok(()), None) => "ok".to_string(),
+            (Err(e), None) => format!("E{}", e),
         };
         let Some(dbr) = db.as_ref() else {
             parts.push(format!("r={} D=Eclosed", rs));
             break;
         };
         parts.push(format!("r={} {}", rs, obs.step(dbr)));
+        let _ = take_worker_panic(); // the dump's own decoding attempts may panic (caught): not the database's
+        if rs.starts_with('P') {
+            break;
+        }
     }
     sessions.clear();
     drop(db);
@@ -603,18 +694,100 @@ fn gen_seq(rng: &mut Rng, n_ops: usize, flavour: &str) -> (String, Vec<String>) 
     (format!("seq {} {} | {}", ps, cache, ops.iter().map(show_sop).collect::<Vec<_>>().join(" ; ")), tags)
 }
 
+#[derive(Clone)]
 struct TableSim {
     name: String,
-    ids: Vec<u64>,
+    /// (id, updates since the last VACUUM)
+    rows: Vec<(u64, u32)>,
     next_id: u64,
     indexes: Vec<String>,
 }
 
-/// Row lengths. `clean`: every row stays far below the size at which cells are "large against the page" (no overflow
-/// chain, dividers small); `big`: rows from 10 bytes to several pages.
+/// What a family of SQL histories may contain. Exactly one *region* per history:
+///   clean     rows of at most 64 bytes, at most 2 tables and 1 index alive, VACUUM at least every ~14 row operations (the catalog
+///             row of a table gains one version per INSERT; un-vacuumed it outgrows a third of a page after ~30 inserts and gets an
+///             overflow chain of its own), a row is updated at most twice between two VACUUMs, no DDL inside a session that is
+///             rolled back. No known finding applies: any failure is a violation.
+///   bigcell   rows from 10 bytes to several pages (overflow chains in user tables; KF-C11-divider-shares-chain and its damage)
+///   bigcat    small rows, but many relations / long stretches without VACUUM: the *catalog* rows overflow (same findings)
+///   ddlrb     small rows, CREATE / DROP inside sessions that are rolled back (KF-C11-drop-not-transactional, KF-C11-vacuum-leaks-aborted-create)
+struct Plan {
+    region: &'static str,
+    family: &'static str,
+    big_rows: bool,
+    max_tables: usize,
+    max_indexes: usize,
+    vacuum_every: Option<usize>,
+    burst: usize,
+    sessions: bool,
+    ddl_in_sessions: bool,
+    rollback_num: u64,
+    ddl: bool,
+    reopen: bool,
+    churn: bool,
+}
+
+fn plan_for(region: &'static str, family: &'static str) -> Plan {
+    let mut p = Plan {
+        region,
+        family,
+        big_rows: false,
+        max_tables: 2,
+        max_indexes: 1,
+        vacuum_every: Some(8),
+        burst: 6,
+        sessions: false,
+        ddl_in_sessions: false,
+        rollback_num: 1,
+        ddl: false,
+        reopen: false,
+        churn: false,
+    };
+    match family {
+        "plain" => {}
+        "rollback" => {
+            p.sessions = true;
+            p.rollback_num = 3;
+        }
+        "ddl" => p.ddl = true,
+        "reopen" => p.reopen = true,
+        "churn" => p.churn = true,
+        _ => {
+            p.sessions = true;
+            p.ddl = true;
+            p.reopen = true;
+            p.churn = true;
+        }
+    }
+    match region {
+        "bigcell" => {
+            p.big_rows = true;
+            p.max_tables = 3;
+            p.max_indexes = 2;
+            p.vacuum_every = Some(40);
+            p.burst = 20;
+        }
+        "bigcat" => {
+            p.max_tables = 5;
+            p.max_indexes = 4;
+            p.vacuum_every = None;
+            p.burst = 25;
+            p.ddl = true;
+        }
+        "ddlrb" => {
+            p.sessions = true;
+            p.ddl_in_sessions = true;
+            p.ddl = true;
+            p.rollback_num = 3;
+        }
+        _ => {}
+    }
+    p
+}
+
 fn pick_len(rng: &mut Rng, ps: usize, big: bool) -> usize {
     if !big {
-        return *rng.pick(&[10usize, 24, 40, 64, 100, 150]);
+        return *rng.pick(&[10usize, 24, 40, 64]);
     }
     match rng.below(10) {
         0..=2 => rng.range(10, 200) as usize,
@@ -625,147 +798,183 @@ fn pick_len(rng: &mut Rng, ps: usize, big: bool) -> usize {
     }
 }
 
-fn gen_sql(rng: &mut Rng, n_ops: usize, family: &str, big: bool) -> (String, Vec<String>) {
+fn gen_sql(rng: &mut Rng, n_ops: usize, plan: &Plan) -> (String, Vec<String>) {
     let ps = *rng.pick(&[4096usize, 8192]);
     let cache = *rng.pick(&[64usize, 10000]);
-    let mut tags: Vec<String> = vec!["sql".into(), family.to_string(), if big { "bigcell".into() } else { "clean".into() }];
+    let mut tags: Vec<String> = vec!["sql".into(), plan.region.to_string(), format!("f-{}", plan.family)];
     tags.push(format!("ps{}", ps));
     tags.push(format!("cache{}", cache));
+    fn tag(t: &str, tags: &mut Vec<String>) {
+        if !tags.iter().any(|x| x == t) {
+            tags.push(t.to_string());
+        }
+    }
     let mut ops: Vec<QOp> = Vec::new();
     let mut tables: Vec<TableSim> = Vec::new();
     let mut tcount = 0u32;
     let mut icount = 0u32;
-    let mut open: Option<u32> = None; // an open session (at most one at a time)
+    let mut open: Option<(u32, Vec<TableSim>, usize)> = None; // session id, tables at BEGIN, statements so far
     let mut sess_n = 0u32;
-    let mut tag = |t: &str, tags: &mut Vec<String>| {
-        if !tags.iter().any(|x| x == t) {
-            tags.push(t.to_string());
+    let mut since_vac = 0usize;
+    fn push(ops: &mut Vec<QOp>, open: &mut Option<(u32, Vec<TableSim>, usize)>, s: Stmt) {
+        match open {
+            Some((k, _, n)) => {
+                *n += 1;
+                ops.push(QOp::SStmt(*k, s))
+            }
+            None => ops.push(QOp::Auto(s)),
         }
-    };
-    let max_tables = if big { 3 } else { 3 };
-    let mut push = |ops: &mut Vec<QOp>, open: &Option<u32>, s: Stmt| match open {
-        Some(k) => ops.push(QOp::SStmt(*k, s)),
-        None => ops.push(QOp::Auto(s)),
-    };
-    // always start with one table
+    }
     tcount += 1;
-    tables.push(TableSim { name: format!("t{}", tcount), ids: Vec::new(), next_id: 1, indexes: Vec::new() });
+    tables.push(TableSim { name: format!("t{}", tcount), rows: Vec::new(), next_id: 1, indexes: Vec::new() });
     ops.push(QOp::Auto(Stmt::CreateTable(format!("t{}", tcount))));
     while ops.len() < n_ops {
+        // VACUUM keeps the catalog rows (one version per INSERT) and the updated rows small
+        if let (Some(every), None) = (plan.vacuum_every, &open) {
+            if since_vac >= every {
+                ops.push(QOp::Vacuum);
+                tag("vacuum", &mut tags);
+                since_vac = 0;
+                for t in tables.iter_mut() {
+                    for r in t.rows.iter_mut() {
+                        r.1 = 0;
+                    }
+                }
+                continue;
+            }
+        }
         let roll = rng.below(100);
-        let use_sessions = family == "rollback" || family == "mixed";
-        if use_sessions && open.is_none() && roll < 8 {
+        if plan.sessions && open.is_none() && roll < 8 {
             sess_n = (sess_n % 9) + 1;
-            open = Some(sess_n);
+            open = Some((sess_n, tables.clone(), 0));
             ops.push(QOp::SBegin(sess_n));
             tag("session", &mut tags);
             continue;
         }
-        if let Some(k) = open {
-            if roll < 18 {
-                if rng.chance(if family == "rollback" { 3 } else { 1 }, 4) {
-                    ops.push(QOp::SRollback(k));
+        if let Some((k, saved, n)) = &open {
+            if roll < 18 || *n >= 6 {
+                if rng.below(4) < plan.rollback_num {
+                    ops.push(QOp::SRollback(*k));
                     tag("rollback", &mut tags);
+                    tables = saved.clone();
                 } else {
-                    ops.push(QOp::SCommit(k));
+                    ops.push(QOp::SCommit(*k));
                     tag("commit", &mut tags);
                 }
                 open = None;
                 continue;
             }
         }
-        if tables.is_empty() || (roll < 22 && roll >= 18 && tables.len() < max_tables) {
+        let ddl_ok = plan.ddl && (open.is_none() || plan.ddl_in_sessions);
+        let n_idx: usize = tables.iter().map(|t| t.indexes.len()).sum();
+        if tables.is_empty() || (ddl_ok && (18..22).contains(&roll) && tables.len() < plan.max_tables) {
             tcount += 1;
             let name = format!("t{}", tcount);
-            tables.push(TableSim { name: name.clone(), ids: Vec::new(), next_id: 1, indexes: Vec::new() });
-            push(&mut ops, &open, Stmt::CreateTable(name));
+            tables.push(TableSim { name: name.clone(), rows: Vec::new(), next_id: 1, indexes: Vec::new() });
+            if open.is_some() {
+                tag("ddl-in-session", &mut tags);
+            }
+            push(&mut ops, &mut open, Stmt::CreateTable(name));
             tag("create", &mut tags);
             continue;
         }
         let ti = rng.below(tables.len() as u64) as usize;
-        if (family == "ddl" || family == "mixed") && roll >= 22 && roll < 27 && (open.is_none() || family == "mixed") {
-            // DROP TABLE (outside sessions unless the family says otherwise)
+        if ddl_ok && (22..26).contains(&roll) {
+            // DROP TABLE; CASCADE when it has indexes (a plain DROP TABLE leaves them in the catalog; DROP INDEX does not parse)
             let t = tables.swap_remove(ti);
-            push(&mut ops, &open, Stmt::DropTable(t.name));
+            if open.is_some() {
+                tag("ddl-in-session", &mut tags);
+            }
+            if t.indexes.is_empty() {
+                push(&mut ops, &mut open, Stmt::DropTable(t.name));
+            } else if plan.region == "bigcat" && rng.chance(1, 3) {
+                push(&mut ops, &mut open, Stmt::DropTable(t.name));
+                tag("orphan-index", &mut tags);
+            } else {
+                push(&mut ops, &mut open, Stmt::DropTableCascade(t.name));
+                tag("drop-cascade", &mut tags);
+            }
             tag("drop", &mut tags);
             continue;
         }
-        if (family == "ddl" || family == "index" || family == "mixed") && roll >= 27 && roll < 32 && tables[ti].indexes.len() < 2 {
+        if ddl_ok && (26..31).contains(&roll) && n_idx < plan.max_indexes && tables[ti].indexes.is_empty() {
             icount += 1;
             let name = format!("i{}", icount);
-            let col = if big && rng.chance(1, 3) { "v" } else { "k" };
+            let col = if plan.big_rows && rng.chance(1, 3) { "v" } else { "k" };
             tables[ti].indexes.push(name.clone());
-            push(&mut ops, &open, Stmt::CreateIndex(name, tables[ti].name.clone(), col.into()));
+            if open.is_some() {
+                tag("ddl-in-session", &mut tags);
+            }
+            push(&mut ops, &mut open, Stmt::CreateIndex(name, tables[ti].name.clone(), col.into()));
             tag("index", &mut tags);
             if col == "v" {
                 tag("index-v", &mut tags);
             }
             continue;
         }
-        if (family == "ddl" || family == "index" || family == "mixed") && roll >= 32 && roll < 34 && !tables[ti].indexes.is_empty() {
-            let name = tables[ti].indexes.pop().unwrap();
-            push(&mut ops, &open, Stmt::DropIndex(name));
-            tag("drop-index", &mut tags);
-            continue;
-        }
-        if (family == "vacuum" || family == "mixed" || family == "ddl") && roll >= 34 && roll < 38 && open.is_none() {
-            ops.push(QOp::Vacuum);
-            tag("vacuum", &mut tags);
-            continue;
-        }
-        if (family == "reopen" || family == "mixed") && roll >= 38 && roll < 41 && open.is_none() {
+        if plan.reopen && (33..36).contains(&roll) && open.is_none() {
             ops.push(QOp::Reopen);
             tag("reopen", &mut tags);
             continue;
         }
-        if roll >= 41 && roll < 43 && open.is_none() {
+        if (36..38).contains(&roll) && open.is_none() {
             ops.push(QOp::Flush);
             tag("flush", &mut tags);
             continue;
         }
-        // DML
+        // row operations
         let t = &mut tables[ti];
         let d = rng.below(100);
-        if t.ids.is_empty() || d < 50 {
-            // a burst of inserts builds multi-page trees quickly
-            let burst = if rng.chance(1, 4) { rng.range(5, 25) as usize } else { 1 };
+        let want_delete = plan.churn && t.rows.len() > 40;
+        if t.rows.is_empty() || (d < 55 && !want_delete) {
+            let burst = if rng.chance(1, 3) { rng.range(2, plan.burst as i64) as usize } else { 1 };
             for _ in 0..burst {
                 let id = t.next_id;
                 t.next_id += 1;
-                t.ids.push(id);
-                let len = pick_len(rng, ps, big);
+                t.rows.push((id, 0));
+                let len = pick_len(rng, ps, plan.big_rows);
                 if len > ps / 4 {
                     tag("overflow-row", &mut tags);
                 }
-                push(&mut ops, &open, Stmt::Insert(t.name.clone(), id, len));
+                since_vac += 1;
+                push(&mut ops, &mut open, Stmt::Insert(t.name.clone(), id, len));
             }
             tag("insert", &mut tags);
-        } else if d < 75 {
-            let id = *rng.pick(&t.ids);
-            let len = pick_len(rng, ps, big);
-            push(&mut ops, &open, Stmt::Update(t.name.clone(), id, len));
+        } else if d < 75 && !want_delete {
+            // a row is updated at most twice between two VACUUMs unless rows may be large anyway
+            let cands: Vec<usize> =
+                (0..t.rows.len()).filter(|i| plan.big_rows || plan.vacuum_every.is_none() || t.rows[*i].1 < 2).collect();
+            if cands.is_empty() {
+                continue;
+            }
+            let i = *rng.pick(&cands);
+            t.rows[i].1 += 1;
+            let id = t.rows[i].0;
+            let len = pick_len(rng, ps, plan.big_rows);
+            since_vac += 1;
+            push(&mut ops, &mut open, Stmt::Update(t.name.clone(), id, len));
             tag("update", &mut tags);
-        } else if d < 93 {
-            let i = rng.below(t.ids.len() as u64) as usize;
-            let id = t.ids.swap_remove(i);
-            push(&mut ops, &open, Stmt::Delete(t.name.clone(), id));
+        } else if d < 90 && !want_delete {
+            let i = rng.below(t.rows.len() as u64) as usize;
+            let id = t.rows.swap_remove(i).0;
+            since_vac += 1;
+            push(&mut ops, &mut open, Stmt::Delete(t.name.clone(), id));
             tag("delete", &mut tags);
         } else {
-            let lo = *rng.pick(&t.ids);
-            let hi = lo + rng.range(2, 12) as u64;
-            t.ids.retain(|x| *x < lo || *x >= hi);
-            push(&mut ops, &open, Stmt::DeleteRange(t.name.clone(), lo, hi));
+            let lo = rng.pick(&t.rows).0;
+            let hi = lo + if want_delete { rng.range(20, 60) } else { rng.range(2, 12) } as u64;
+            t.rows.retain(|x| x.0 < lo || x.0 >= hi);
+            since_vac += 2;
+            push(&mut ops, &mut open, Stmt::DeleteRange(t.name.clone(), lo, hi));
             tag("delete-range", &mut tags);
         }
     }
-    if let Some(k) = open {
-        ops.push(if rng.chance(1, 2) { QOp::SCommit(k) } else { QOp::SRollback(k) });
+    if let Some((k, _, _)) = open {
+        ops.push(if rng.below(4) < plan.rollback_num { QOp::SRollback(k) } else { QOp::SCommit(k) });
     }
-    // every history ends with VACUUM (dead rows are removed physically: pages must come back) and a reopen
-    if family != "plain" {
-        ops.push(QOp::Vacuum);
-        ops.push(QOp::Reopen);
-    }
+    // every history ends with VACUUM (dead rows are removed physically: their pages must come back) and a reopen
+    ops.push(QOp::Vacuum);
+    ops.push(QOp::Reopen);
     if ops.len() >= 10 {
         tags.push("nt".into());
     }
@@ -774,10 +983,11 @@ fn gen_sql(rng: &mut Rng, n_ops: usize, family: &str, big: bool) -> (String, Vec
 
 impl Engine for PagerEngine {
     fn timeout_ms(&self) -> u64 {
-        120_000
+        60_000
     }
 
     fn exec(&mut self, line: &str) -> String {
+        let _quiet = QuietStdout::new();
         if line.starts_with("seq ") {
             exec_seq(line)
         } else if line.starts_with("sql ") {
@@ -807,13 +1017,24 @@ impl Engine for PagerEngine {
             out.push(Case::new(line, &t));
         }
         let mut r2 = rng.fork("sql");
-        let families = ["plain", "rollback", "ddl", "index", "vacuum", "reopen", "mixed"];
+        let families = ["plain", "rollback", "ddl", "reopen", "churn", "mixed"];
         for i in 0..n_sql {
-            let family = families[i % families.len()];
-            // region split: 3 of 11 histories use large rows (KF-C10-divider-full-copy region `bigcell`), the rest stay clean
-            let big = i % 11 >= 8;
-            let n_ops = (r2.range(25, 90) as usize) * scale;
-            let (line, tags) = gen_sql(&mut r2, n_ops, family, big);
+            // region split: 8 of every 11 histories are clean, then bigcell, bigcat, ddlrb (one region feature each)
+            let region = match i % 11 {
+                0..=7 => "clean",
+                8 => "bigcell",
+                9 => "bigcat",
+                _ => "ddlrb",
+            };
+            let family = families[(i / 11 + i % 11) % families.len()];
+            let plan = plan_for(region, family);
+            let n_ops = match i % 3 {
+                0 => r2.range(40, 120),
+                1 => r2.range(150, 350),
+                _ => r2.range(400, 700),
+            } as usize
+                * scale;
+            let (line, tags) = gen_sql(&mut r2, n_ops, &plan);
             let t: Vec<&str> = tags.iter().map(|s| s.as_str()).collect();
             out.push(Case::new(line, &t));
         }
